@@ -70,6 +70,8 @@ func (g *Gateway) Query(ctx context.Context, input *graphql.QueryInput, receiver
 
 	for _, field := range graphql.SelectedFields(querySelection) {
 		switch field.Name {
+		case "__typename":
+			result[field.Alias] = typeNameQuery
 		case "__schema":
 			result[field.Alias] = g.introspectSchema(introspectionSchema, field.SelectionSet)
 		case "__type":
@@ -150,6 +152,10 @@ func (g *Gateway) introspectSchema(schema *introspection.Schema, selectionSet as
 	result := map[string]interface{}{}
 
 	for _, field := range graphql.SelectedFields(selectionSet) {
+		if field.Name == "__typename" {
+			result[field.Alias] = "__Schema"
+			continue
+		}
 		switch field.Alias {
 		case "types":
 			result[field.Alias] = g.introspectTypeSlice(schema.Types(), field.SelectionSet)
@@ -183,6 +189,8 @@ func (g *Gateway) introspectType(schemaType *introspection.Type, selectionSet as
 		}
 
 		switch field.Name {
+		case "__typename":
+			result[field.Alias] = "__Type"
 		case introspectKind:
 			result[field.Alias] = schemaType.Kind()
 		case introspectName:
@@ -212,6 +220,8 @@ func (g *Gateway) introspectField(fieldDef introspection.Field, selectionSet ast
 
 	for _, field := range graphql.SelectedFields(selectionSet) {
 		switch field.Name {
+		case "__typename":
+			result[field.Alias] = "__Field"
 		case introspectName:
 			result[field.Alias] = fieldDef.Name
 		case introspectDescription:
@@ -235,6 +245,8 @@ func (g *Gateway) introspectEnumValue(definition *introspection.EnumValue, selec
 
 	for _, field := range graphql.SelectedFields(selectionSet) {
 		switch field.Name {
+		case "__typename":
+			result[field.Alias] = "__EnumValue"
 		case introspectName:
 			result[field.Alias] = definition.Name
 		case introspectDescription:
@@ -255,6 +267,8 @@ func (g *Gateway) introspectDirective(directive introspection.Directive, selecti
 
 	for _, field := range graphql.SelectedFields(selectionSet) {
 		switch field.Name {
+		case "__typename":
+			result[field.Alias] = "__Directive"
 		case introspectName:
 			result[field.Alias] = directive.Name
 		case introspectDescription:
@@ -274,6 +288,8 @@ func (g *Gateway) introspectInputValue(iv *introspection.InputValue, selectionSe
 
 	for _, field := range graphql.SelectedFields(selectionSet) {
 		switch field.Name {
+		case "__typename":
+			result[field.Alias] = "__InputValue"
 		case introspectName:
 			result[field.Alias] = iv.Name
 		case introspectDescription:
